@@ -151,8 +151,15 @@ public:
 
   void flush() {
     p& n = data.get();
-    if (n.next)
-      pushChunk(n.next);
+    if (n.next) {
+      // A stack pops from its push chunk, so the chunk may be empty here. An
+      // empty chunk on top of the shared stack makes the next pop() report
+      // "no work" although full chunks lie below it.
+      if (n.next->empty())
+        delChunk(n.next);
+      else
+        pushChunk(n.next);
+    }
     n.next = 0;
   }
 
